@@ -396,6 +396,20 @@ func (e *Engine) callModular(fr *Frame, st *State, fc *FuncContract, name string
 		g := e.evalBool(r.Expr, env)
 		e.oblige(st, "pre/"+shortName(name), g, pos, fmt.Sprintf("precondition %d of %s: %s", i+1, shortName(name), r.Src), fc.Tags)
 	}
+	if len(fc.Variant) > 0 {
+		// recursion variant: the callee's measure (at its arguments) is below the measure the
+		// function under verification had at entry, and not negative
+		root := fr
+		for root.parent != nil {
+			root = root.parent
+		}
+		if root.contract != nil && len(root.contract.Variant) > 0 {
+			mine := e.baseEnv(root, root.entry).eval(root.contract.Variant[0].Expr).T
+			theirs := env.eval(fc.Variant[0].Expr).T
+			e.oblige(st, "variant/"+shortName(name), and(sx("<=", "0", theirs), sx("<", theirs, mine)), pos,
+				fmt.Sprintf("recursion variant decreases: %s of %s below %s at entry", fc.Variant[0].Src, shortName(name), root.contract.Variant[0].Src), root.contract.Tags)
+		}
+	}
 	// frame
 	switch {
 	case fc.Pure:
